@@ -191,7 +191,18 @@ func c19a(c *Ctx) {
 		return out
 	}
 	peekedASCII := func(e armEnv, b *ssa.BasicBlock) bool {
+		arm, hasArm := e.armOf(b)
 		for _, l := range c.mustLits(e.f, b) {
+			// the peeked character equals the current one, which the arm knows to be ASCII
+			if hasArm && arm > 0 && arm < 128 && strings.HasPrefix(l, "+(") && strings.HasSuffix(l, ")") {
+				if ps := strings.Split(l[2:len(l)-1], " == "); len(ps) == 2 {
+					for i := range ps {
+						if ps[i] == e.chT && strings.HasPrefix(ps[1-i], "(*lexer.Lexer).peekChar($0)@") && !strings.Contains(ps[1-i], " ") {
+							return true
+						}
+					}
+				}
+			}
 			if strings.HasPrefix(l, "+((*lexer.Lexer).peekChar($0)@") {
 				var n int64
 				i := strings.LastIndex(l, " == ")
